@@ -24,6 +24,7 @@ from . import env
 
 NPROC = int(os.environ.get('VERIF_JOBS', '16'))
 MAX_RESTARTS = 4          # distinct root causes reported per Hypothesis shard
+MAX_PER_BUCKET = 2
 HANG_S = float(os.environ.get('VERIF_HANG_S', '45'))
 SLOT_BYTES = 8192
 
@@ -561,11 +562,15 @@ def main(check, argv=None):
                 sys.stderr.write('HARNESS ERROR: %s\n' % e)
             return 2
         seen = set()
-        for rec in total.violations:
+        per_bucket = {}
+        # shortest cases first: at most MAX_PER_BUCKET replay files per root-cause bucket
+        for rec in sorted(total.violations, key=lambda r: (not r.get('shrunk'), len(canon(r['case'])))):
             key = canon([rec['part'], rec['case'], rec['violation']['kind']])
-            if key in seen:
+            b = rec['violation']['bucket']
+            if key in seen or per_bucket.get(b, 0) >= MAX_PER_BUCKET:
                 continue
             seen.add(key)
+            per_bucket[b] = per_bucket.get(b, 0) + 1
             rec = dict(rec, property=prop, seed=seed, tier=args.tier)
             path = write_replay(prop, rec)
             lines.append('VIOLATION property=%s replay=%s' % (prop, path))
